@@ -140,9 +140,9 @@ def to_line(st) -> str:
     if k == "aug":
         return f"eng aug {st[1]} {st[2]} {operand_tok(st[3])}"
     if k == "outb":
-        return f"eng outb {st[1]} {st[2]} {operand_tok(st[3])} {operand_tok(st[4])} {where_tok(st[5])}"
+        return f"eng outb {st[1]} {st[2]} {operand_tok(st[3])} {operand_tok(st[4])} {where_tok(st[5])}" + (f" {c_tok(st[6])}" if len(st) > 6 else "")
     if k == "outu":
-        return f"eng outu {st[1]} {st[2]} {operand_tok(st[3])} {where_tok(st[4])}"
+        return f"eng outu {st[1]} {st[2]} {operand_tok(st[3])} {where_tok(st[4])}" + (f" {c_tok(st[5])}" if len(st) > 5 else "")
     if k == "back":
         return f"eng back {st[1]} " + ("N" if st[2] is None else f"l:{shp(st[2][1])}:{ints(st[2][2])}")
     if k in ("clear", "null", "del"):
@@ -257,11 +257,15 @@ class RealExec:
             assert t is v[st[1]]
         elif k == "outb":
             kw = {} if st[5] is None else {"where": np.array(st[5][1], dtype=bool).reshape(st[5][0])}
-            r = BIN[st[2]](self.operand(st[3]), self.operand(st[4]), out=v[st[1]], **kw)
+            if len(st) > 6:  # an explicit `constant=` next to `out=` (ignored by an in-place operation)
+                kw["constant"] = st[6]
+            r = (MG_BIN if len(st) > 6 else BIN)[st[2]](self.operand(st[3]), self.operand(st[4]), out=v[st[1]], **kw)
             assert r is v[st[1]]
         elif k == "outu":
             kw = {} if st[4] is None else {"where": np.array(st[4][1], dtype=bool).reshape(st[4][0])}
-            r = UN[st[2]](self.operand(st[3]), out=v[st[1]], **kw)
+            if len(st) > 5:
+                kw["constant"] = st[5]
+            r = (MG_UN if len(st) > 5 else UN)[st[2]](self.operand(st[3]), out=v[st[1]], **kw)
             assert r is v[st[1]]
         elif k == "back":
             # an *owning* array: MyGrad stores the caller's seed array itself as L.grad (known finding F8)
@@ -938,12 +942,16 @@ class Gen:
                 ws = bshape_for(rng, st)
                 w = [list(ws), [int(rng.random() < 0.5) for _ in range(int(np.prod(ws)))]]
             self.prog.append(["outb", t, rng.choice(["add", "sub", "mul"]), self.operand_like(st), self.operand_like(st), w])
+            if rng.random() < 0.3:
+                self.prog[-1].append(rng.choice([True, False]))
         else:
             w = None
             if rng.random() < 0.4:
                 ws = bshape_for(rng, st)
                 w = [list(ws), [int(rng.random() < 0.5) for _ in range(int(np.prod(ws)))]]
             self.prog.append(["outu", t, rng.choice(["neg", "square", "pos"]), self.operand_like(st), w])
+            if rng.random() < 0.3:
+                self.prog[-1].append(rng.choice([True, False]))
 
     def add_fail(self):
         """a statement built to raise"""
